@@ -184,12 +184,17 @@ func (repo *StoragePeerRepository) Load(ctx context.Context) error {
 		return errors.Wrap(err, "Failed to read peers count")
 	}
 
-	if count < 0 || int(count) > buffer.Len() {
+	if count < 0 {
 		return errors.New("Invalid peers count")
 	}
 
-	// Reset
-	repo.list = make(PeerList, 0, count)
+	// Reset. A file that was cut short still declares its original count, so never reserve more than the
+	// remaining bytes can hold and keep the peers that precede the cut.
+	capacity := int(count)
+	if capacity > buffer.Len() {
+		capacity = buffer.Len()
+	}
+	repo.list = make(PeerList, 0, capacity)
 
 	// Parse peers
 	for {
